@@ -261,11 +261,15 @@ func genC20(r *simrt.Rand, tier string) any {
 	sc.Sched.HorizonS = 600
 	na := 2 + r.Int(3)
 	adminDone := false
+	longTasks := r.Pct(20) // swarm: in a fifth of the cases some task bodies last 6-20 simulated seconds
 	for a := 0; a < na; a++ {
 		var ops []PoolOp
 		n := 1 + r.Int(5)
 		for i := 0; i < n; i++ {
 			op := PoolOp{WorkUs: []int{0, 0, 10, 1000, 60000, 200000}[r.Int(6)], SleepUs: []int{0, 0, 0, 5, 500, 70000}[r.Int(6)]}
+			if longTasks && r.Pct(35) {
+				op.WorkUs = []int{6000000, 8000000, 20000000}[r.Int(3)] // a request stuck in the backend for seconds
+			}
 			switch r.Pick([]int{30, 30, 20, 6, 10, 0}) {
 			case 0:
 				op.Op = "submit"
@@ -333,7 +337,7 @@ func shrinkPool(scAny any) []any {
 
 func init() {
 	Register(&Prop{ID: "C20", Level: "exploration", Race: true,
-		Rule: "one case = 2-4 actors each issuing 1-5 of Submit / SubmitWait / ExecuteWithWorker (task bodies of 0-200 ms simulated work that record executions and concurrency), Stop, Resize(1..4, 0), Start, with pauses, on a pool of 1-3 workers, every interleaving of lock, channel and select choices (incl. the worker's ctx.Done-vs-queue select and Submit's queue-vs-timer select) decided by the seeded scheduler (random, PCT, sticky policies), also built with -race; ledger oracle per task: executions <= 1, result delivered exactly once and equal to the task's own value, or the submitter is told it did not run (and it never runs); nil with ok=true is neither; concurrently executing tasks <= max(old,new) size; ExecuteWithWorker returns the request's own result after exactly one execution; at quiescence no submitter is still blocked; no panic escapes; non-trivial = >=2 tasks and >=1 executed; distinct by event digest",
+		Rule: "one case = 2-4 actors each issuing 1-5 of Submit / SubmitWait / ExecuteWithWorker (task bodies of 0-200 ms simulated work - in a fifth of the cases some of 6-20 s, longer than any shutdown grace - that record executions and concurrency), Stop, Resize(1..4, 0), Start, with pauses, on a pool of 1-3 workers, every interleaving of lock, channel and select choices (incl. the worker's ctx.Done-vs-queue select and Submit's queue-vs-timer select) decided by the seeded scheduler (random, PCT, sticky policies), also built with -race; ledger oracle per task: executions <= 1, result delivered exactly once and equal to the task's own value, or the submitter is told it did not run (and it never runs); nil with ok=true is neither; concurrently executing tasks <= max(old,new) size; ExecuteWithWorker returns the request's own result after exactly one execution; at quiescence no submitter is still blocked; no panic escapes; non-trivial = >=2 tasks and >=1 executed; distinct by event digest",
 		Gen:  genC20, New: func() any { return &PoolScn{} }, Run: runPool, Shrink: shrinkPool,
 		Real:    []string{"WorkerPool (Start, worker, Submit, SubmitWait, Stop, Resize, Stats)", "AbsfsNFS.ExecuteWithWorker", "absnfs.New"},
 		Stubbed: []string{"clock (synctest fake clock)", "goroutine scheduling and select choice (simrt driver)", "sync.Mutex/RWMutex (simrt equivalents)", "backend (simfs, only touched by New)"}})
